@@ -18,3 +18,11 @@ package vgirpc
 //@   property C02
 //@   ensures [answered_means_drained] result0 != nil ==> inputTaken(r)
 //@   ensures [local_tail_drained_ret10] exhausted(inputReader)
+
+// ReadRequest: every return that leaves the connection open for another request — success, or
+// a typed RpcError the serve loop answers and survives — happens only after the request's IPC
+// stream was read to its end (Next() returned false), whatever the validation outcome.
+//
+//@ func ReadRequest
+//@   property C02
+//@   ensures [local_drained] result1 == nil || typeof(result1) == *RpcError ==> exhausted(reader)
